@@ -171,8 +171,6 @@ def h_roundtrip(v0: int, v1: int, v2: int, v3: int, v4: int, v5: int):
         else:
             assert got is None, (f, s)
     f1 = t1.timex_value()
-    if KIND == 'period' and not (v0 != 0 or v1 != 0):
-        return  # zero amount: see known finding F7b (handled by its own obligation)
     t2 = Timex(f1)
     f2 = t2.timex_value()
     # (b) formatting then parsing yields the same field values
